@@ -800,6 +800,8 @@ class ManagerCorr(MatchCorr):
 class C01(Prop):
     id = "C01"
     props_file = "Props/C01.v"
+    # redundant tie (core.gen_tie): these decision functions, translated from the source on every run, equal the hand model for all inputs
+    gen_tie_theorems = ['GenTie_is_better_than_other_models']
     gen_files = []
     design_ref = "DESIGN.md section 4, C01"
     technique = ("Coq proof by induction over the matching loops of an executable Gallina model of get_object_results "
